@@ -89,6 +89,9 @@ func (c *conn) Close() error {
 
 // LocalAddr returns the local network address.
 func (c *conn) LocalAddr() net.Addr {
+	if c.c == nil {
+		return nil
+	}
 	return c.c.LocalAddr()
 }
 
